@@ -12,6 +12,7 @@ pub fn run(ctx: &Ctx) -> Outcome {
     }
     run_and_report(ctx, &rx_rude(ctx.tier, d), &mut out);
     run_and_report(ctx, &rx_halfclosed(ctx.tier, d), &mut out);
+    run_and_report(ctx, &rx_reader_gone(ctx.tier, ctx.tier.pick(7, 9)), &mut out);
     run_and_report(ctx, &rx_after_fin(ctx.tier, false, ctx.tier.pick(5, 7)), &mut out);
     run_and_report(ctx, &rx_after_fin(ctx.tier, true, ctx.tier.pick(5, 7)), &mut out);
     for drv in fsm_all(ctx.tier, ctx.tier.pick(5, 7)).into_iter().filter(|d| d.name.contains("finwait") || d.name.contains("inflight")) {
